@@ -192,19 +192,31 @@ def main(pid, prop_name, tier, seed, replay=None, jobs=None):
            'decisions': 0, 'nontrivial': 0, 'steps': 0, 'stats': {}, 'cases_done': 0}
     covered, models_used = {}, {}
     done_all = True
+    procs = []
     if jobs == 1:
         _init_worker(prop_name, opts)
-        it = map(work_case, cases)
-        pool = None
+        it = ((work_case(c), dict(_M.covered), dict(_M.models_used)) for c in cases)
     else:
         ctx = multiprocessing.get_context('fork')
-        pool = ctx.Pool(jobs, initializer=_init_worker, initargs=(prop_name, opts))
         chunk = max(1, min(64, len(cases) // (jobs * 8)))
-        it = pool.imap_unordered(work_case_cov, cases, chunksize=chunk)
+        chunks = [cases[i:i + chunk] for i in range(0, len(cases), chunk)]
+        tq, rq = ctx.Queue(), ctx.Queue(maxsize=jobs * 4)
+        for ch in chunks: tq.put(ch)
+        for _ in range(jobs): tq.put(None)
+        for _ in range(jobs):
+            p = ctx.Process(target=_worker_loop, args=(prop_name, opts, tq, rq), daemon=True)
+            p.start(); procs.append(p)
+        def results():
+            live = jobs
+            while live:
+                item = rq.get()
+                if item is None: live -= 1
+                elif isinstance(item, str): raise SystemExit('worker failed: ' + item)
+                else:
+                    for r in item: yield r
+        it = results()
     try:
-        for r in it:
-            if isinstance(r, tuple): r, cov, mu = r
-            else: cov, mu = dict(_M.covered), dict(_M.models_used)
+        for r, cov, mu in it:
             agg['cases_done'] += 1
             for k in ('paths', 'infeasible', 'native', 'decisions', 'nontrivial', 'steps'): agg[k] += r[k]
             for k in ('violations', 'errors', 'faults'): agg[k].extend(r[k])
@@ -217,14 +229,30 @@ def main(pid, prop_name, tier, seed, replay=None, jobs=None):
                 done_all = False; break
             if len(agg['errors']) > 20 or len(agg['faults']) > 20: done_all = False; break
     finally:
-        if pool is not None:
-            pool.terminate(); pool.join()
+        for p in procs:
+            try: p.kill()
+            except Exception: pass
     return finish(pid, prop, tier, seed, binfo, cases, agg, covered, models_used, done_all, time.time() - t0)
 
 
-def work_case_cov(case):
-    r = work_case(case)
-    return r, dict(_M.covered), dict(_M.models_used)
+def _worker_loop(prop_name, opts, tq, rq):
+    try:
+        import ctypes, signal
+        ctypes.CDLL('libc.so.6').prctl(1, signal.SIGKILL)   # PR_SET_PDEATHSIG: die with the parent
+    except Exception:
+        pass
+    try:
+        _init_worker(prop_name, opts)
+        while True:
+            ch = tq.get()
+            if ch is None: break
+            out = []
+            for c in ch:
+                out.append((work_case(c), dict(_M.covered), dict(_M.models_used)))
+            rq.put(out)
+        rq.put(None)
+    except BaseException as e:
+        rq.put('%s: %s\n%s' % (type(e).__name__, e, traceback.format_exc()[-1500:]))
 
 
 def finish(pid, prop, tier, seed, binfo, cases, agg, covered, models_used, done_all, wall):
@@ -300,6 +328,9 @@ def finish(pid, prop, tier, seed, binfo, cases, agg, covered, models_used, done_
         pid, tier, agg['cases_done'], agg['paths'], agg['infeasible'], st.get('solver_calls', 0), st.get('solver_s', 0.0),
         agg['native'], wall, '' if done_all else ' [budget reached: bound reduced, see evidence]'))
     if report:
+        for s in inconclusive: print('INCONCLUSIVE (besides the violations): ' + s)
+        if inconclusive:
+            json.dump({'errors': agg['errors'][:10], 'faults': agg['faults'][:10]}, open(os.path.join(ROOT, '.cache', 'last_inconclusive_%s.json' % pid), 'w'), indent=1, default=str)
         return 1
     if inconclusive:
         for s in inconclusive: print('INCONCLUSIVE: ' + s)
